@@ -38,7 +38,7 @@ def parser() -> Any:
 
 
 TREE_NAMES = sorted({cls.__name__ for cls in models.TREE_MODELS.values()} - {'NumberAddExpr', 'NumberMulExpr'} | {'NumberAddExpr', 'NumberMulExpr'})
-REQUIRED_CLASSES = tuple(['model:' + n for n in TREE_NAMES] + ['crlf', 'ws-only-line', 'no-final-newline', 'multiline-string',
+REQUIRED_CLASSES = tuple(['model:' + n for n in TREE_NAMES] + ['inline-line-break', 'crlf', 'ws-only-line', 'no-final-newline', 'multiline-string',
                                                               'block-comment', 'claim:on', 'claim:off', 'target:file', 'target:other'])
 
 
@@ -58,6 +58,8 @@ def features(chunks: list, text: str) -> set:
             f.add('crlf')
     if text and not text.endswith('\n'):
         f.add('no-final-newline')
+    if any(p[0] == 'INDENT' and i and pieces[i - 1][0] == '_NEWLINE' for i, p in enumerate(pieces)):
+        f.add('indented-line')
     return f
 
 
@@ -81,6 +83,8 @@ def run_case(case: dict) -> Result:
     classes = features(chunks, text)
     classes.add('claim:on' if claim else 'claim:off')
     classes.add('target:file' if target == 'file' else 'target:other')
+    if target in L.INLINE_TARGETS and '\n' in text:
+        classes.add('inline-line-break')
     res.nontrivial = (text.count('\n') >= 1 and bool(classes & {'block-comment', 'ws-only-line', 'crlf', 'no-final-newline', 'multiline-string'})) or target != 'file'
 
     printed = O.print_text(model)
@@ -94,13 +98,15 @@ def run_case(case: dict) -> Result:
             outside = order.tokens[:a] + order.tokens[b + 1:]
             inner = ''.join(t.raw_text for t in order.tokens[a:b + 1])
             outer_only = (target != 'file' and printed == inner and bool(outside) and all(
-                isinstance(t, (O.Whitespace, O.Newline)) or (isinstance(t, O.BlockComment) and not t.claimed) or t.raw_text == ''
+                isinstance(t, (O.Whitespace, O.Newline)) or type(t).__name__ == 'Indent' or (isinstance(t, O.BlockComment) and not t.claimed) or t.raw_text == ''
                 for t in outside))
+            has_comment = any(isinstance(t, O.BlockComment) for t in outside)
         except Exception:  # noqa: BLE001
             outer_only = False
+            has_comment = False
         if outer_only:
-            res.bad('print!=text:unowned-outer-comment:claim=' + ('on' if claim else 'off'),
-                    f'parse({text!r}, {cls.__name__}, auto_claim_comments={claim}) prints {printed!r}: comment lines outside the model stay in the store but are not printed')
+            res.bad('print!=text:unowned-outer-trivia:' + ('comment' if has_comment else 'blank') + ':claim=' + ('on' if claim else 'off'),
+                    f'parse({text!r}, {cls.__name__}, auto_claim_comments={claim}) prints {printed!r}: trivia outside the model stays in the store but is not printed')
         else:
             res.bad('print!=text', f'printed {printed!r} for input {text!r} (target {target}, claim={claim})')
     cat = ''.join(t.raw_text for t in order.tokens)
